@@ -1362,6 +1362,14 @@ coap_request_missing_q_block2(coap_session_t *session, coap_lg_crcv_t *lg_crcv) 
   size_t block_size;
   coap_pdu_t *pdu = NULL;
   int block_payload_set = -1;
+  size_t total_len = lg_crcv->total_len;
+
+  /*
+   * The NUM of a Q-Block2 option has 20 bits: whatever size the peer
+   * announced, no block beyond 0xFFFFF can be asked for.
+   */
+  if (total_len > ((size_t)0x100000 << (lg_crcv->szx + 4)))
+    total_len = (size_t)0x100000 << (lg_crcv->szx + 4);
 
   if (session->block_mode & COAP_BLOCK_USE_M_Q_BLOCK) {
     /*
@@ -1379,7 +1387,7 @@ coap_request_missing_q_block2(coap_session_t *session, coap_lg_crcv_t *lg_crcv) 
       block = lg_crcv->rec_blocks.range[0].end + 1;
       block_size = (size_t)1 << (lg_crcv->szx + 4);
       sofar = block * block_size;
-      if (sofar < lg_crcv->total_len) {
+      if (sofar < total_len) {
         /* Ask for missing blocks */
         if (pdu == NULL) {
           pdu = coap_build_missing_pdu(session, lg_crcv);
@@ -1422,14 +1430,14 @@ coap_request_missing_q_block2(coap_session_t *session, coap_lg_crcv_t *lg_crcv) 
   }
   block_size = (size_t)1 << (lg_crcv->szx + 4);
   sofar = (block + 1) * block_size;
-  if (sofar < lg_crcv->total_len) {
+  if (sofar < total_len) {
     /* Ask for trailing missing blocks */
     if (pdu == NULL) {
       pdu = coap_build_missing_pdu(session, lg_crcv);
       if (!pdu)
         return;
     }
-    sofar = (lg_crcv->total_len + block_size - 1)/block_size;
+    sofar = (total_len + block_size - 1)/block_size;
     block++;
     if (block_payload_set == -1)
       block_payload_set = block / COAP_MAX_PAYLOADS(session);
@@ -4062,6 +4070,10 @@ reinit:
                 }
                 if (COAP_PROTO_RELIABLE(session->proto) ||
                     rcvd->type != COAP_MESSAGE_NON)
+                  goto skip_app_handler;
+                if (block.num >= 0xFFFFF)
+                  /* No block follows the last NUM that can be encoded; the
+                     blocks still missing are asked for on timeout */
                   goto skip_app_handler;
 
               } else
